@@ -1,7 +1,7 @@
 (* C12 - time slicing returns exactly the requested window and pieces re-join.
    Statements only; proofs in Proofs/SliceProofs.v.  Integer ticks; full_score = every chord has at least one
    part and every part lasts as long as its chord (the statement's guard), durations >= 0. *)
-From ML Require Import Model.Types gen.Tables Model.Pitch Model.Rel Model.Render Model.Slice Proofs.RenderProofs Proofs.SliceProofs.
+From ML Require Import Model.Types gen.Tables Model.Pitch Model.Rel Model.Render Model.Slice Proofs.RenderProofs Proofs.SliceProofs Proofs.SliceContent.
 From Coq Require Import Lia.
 Open Scope Z_scope.
 Open Scope list_scope.
@@ -41,6 +41,19 @@ Proof. exact rejoin_duration. Qed.
 Theorem C12_repeat_until : forall s d, full_score s -> 0 < d -> 0 < score_dur s ->
   exists r, repeat_until s d = Some r /\ score_dur r = d.
 Proof. exact repeat_until_duration. Qed.
+
+(* content of a window: get_melody_between returns exactly the notes of the part overlapping [a, b), in order, each clipped to the
+   window; a note already sounding at a becomes a continuation; every other kept note keeps pitch, kind and dynamics *)
+Theorem C12_melody_window_content : forall v t a b, positive v -> a < b -> mel_between v t a b = Some (clip_list v t a b).
+Proof. exact mel_between_content. Qed.
+
+Theorem C12_kept_note : forall a b t n x, clip a b t n = Some x ->
+  0 < tdur x /\ tdur x = Z.min (t + tdur n) b - Z.max t a /\ (a <= t -> tn x = tn n /\ tamp x = tamp n) /\ (t < a -> x = continuation (tdur x)).
+Proof. exact clip_some. Qed.
+
+Theorem C12_chord_window_content : forall c a b, rparts c <> [] -> Forall (fun p => positive (snd p)) (rparts c) -> a < b ->
+  chord_between c a b = Some (mkRC (rc c) (drop_empty_drums (map (fun p => (fst p, clip_list (snd p) 0 a b)) (rparts c)))).
+Proof. exact chord_between_content. Qed.
 
 (* non-vacuity *)
 Example C12_ex :
